@@ -4,7 +4,7 @@ From Coq.Strings Require Import Byte.
 Import ListNotations.
 From GA.Base Require Import Bytes Case Align CorrBase.
 From GA.Gen Require Import Alpha IOConst.
-From GA.Model Require Fasta Phylip.
+From GA.Model Require Fasta Phylip Nexus.
 From GA.Model Require Import Translate.
 
 Definition brows := list (bs * bs).
@@ -35,6 +35,11 @@ Definition model_ok (c : case) : bool :=
     bytes_eqb (unbs (k_written c)) (Phylip.write PHYLIP_LINE PHYLIP_BLOCK ly rs) &&
     (is_cfg c "phylip-strict" || negb (is_class c "Ok") ||
      rows_eqb (unrows (k_out c)) (Phylip.read (length rs) (unbs (k_written c))))
+  else if is_cfg c "nexus" then
+    (* the Nexus writer is modelled; the reference reading of its matrix block must be what the code's
+       parser returned *)
+    bytes_eqb (unbs (k_written c)) (Nexus.write (Z.eqb (k_inalpha c) AMINOACIDS) rs) &&
+    (negb (is_class c "Ok") || rows_eqb (unrows (k_out c)) (Nexus.read (unbs (k_written c))))
   else true.
 
 (* ---- SPEC: representable alignments round-trip ---------------------------------------------- *)
